@@ -344,6 +344,80 @@ func genUnit(r *rng, kind string, s string) unit {
 		u.defs = fmt.Sprintf("def f_%s():\n    return len(CC_%s) + 40030\nCC_%s = [f_%s.code()]\n", s, s, s, s)
 		u.use = fmt.Sprintf("f_%s()", s)
 		sens("", "return len(CC_"+s+") + 40030\n", "return len(CC_"+s+") + 40031\n", "function whose code object is stored in a global it uses")
+	case "recshared":
+		// a recursive function (memoised twice by the per-encoding pickler: marker, then the finished function) FOLLOWED in
+		// traversal order by a memoisable value that is referenced more than once: if the encoder's memo ids drift from the
+		// decoder's after the double memoisation, the later BINGET names the wrong object
+		rec := fmt.Sprintf("def fact_%s(n):\n    if n <= 1:\n        return 40030\n    return n * fact_%s(n - 1)\n", s, s)
+		recName := "fact_" + s
+		if r.below(2) == 0 {
+			rec = fmt.Sprintf("def even_%s(n):\n    if n == 0:\n        return 40030 == 0\n    return odd_%s(n - 1)\ndef odd_%s(n):\n    if n == 0:\n        return False\n    return even_%s(n - 1)\n", s, s, s, s)
+			recName = "even_" + s
+		}
+		switch r.below(6) {
+		case 0:
+			u.defs = rec + fmt.Sprintf("A_%s = [40040, 2]\nB_%s = A_%s\ndef k_%s():\n    return [%s(2), A_%s, B_%s]\n", s, s, s, s, recName, s, s)
+			sens("", fmt.Sprintf("B_%s = A_%s\n", s, s), fmt.Sprintf("B_%s = %s\n", s, recName), "alias of a shared list becomes the recursive function")
+			sens("", fmt.Sprintf("B_%s = A_%s\n", s, s), fmt.Sprintf("B_%s = [40040, 2]\n", s), "alias of a shared list becomes an equal but distinct list")
+		case 1:
+			u.defs = rec + fmt.Sprintf("A_%s = {\"k\": 40040}\nB_%s = A_%s\ndef k_%s():\n    return [%s(2), A_%s, B_%s]\n", s, s, s, s, recName, s, s)
+			sens("", fmt.Sprintf("B_%s = A_%s\n", s, s), fmt.Sprintf("B_%s = %s\n", s, recName), "alias of a shared dict becomes the recursive function")
+			sens("", fmt.Sprintf("B_%s = A_%s\n", s, s), fmt.Sprintf("B_%s = {\"k\": 40040}\n", s), "alias of a shared dict becomes an equal but distinct dict")
+		case 2:
+			u.defs = rec + fmt.Sprintf("A_%s = [40040]\nP_%s = [A_%s, A_%s, (A_%s, 1)]\ndef k_%s():\n    return [%s(2), P_%s]\n", s, s, s, s, s, s, recName, s)
+			sens("", fmt.Sprintf("P_%s = [A_%s, A_%s,", s, s, s), fmt.Sprintf("P_%s = [A_%s, %s,", s, s, recName), "second reference to a shared list becomes the recursive function")
+			sens("", fmt.Sprintf("P_%s = [A_%s, A_%s,", s, s, s), fmt.Sprintf("P_%s = [A_%s, [40040],", s, s), "second reference to a shared list becomes an equal but distinct list")
+		case 3:
+			u.defs = rec + fmt.Sprintf("def h_%s():\n    return 40040\nH1_%s = h_%s\nH2_%s = h_%s\ndef k_%s():\n    return [%s(2), H1_%s(), H2_%s()]\n", s, s, s, s, s, s, recName, s, s)
+			sens("", fmt.Sprintf("H2_%s = h_%s\n", s, s), fmt.Sprintf("H2_%s = %s\n", s, recName), "second alias of a helper function becomes the recursive function")
+		case 4:
+			u.defs = rec + fmt.Sprintf("A_%s = [40040, 2]\ndef helper_%s():\n    return A_%s\nC_%s = A_%s\ndef k_%s():\n    return [%s(2), helper_%s(), C_%s]\n", s, s, s, s, s, s, recName, s, s)
+			sens("", fmt.Sprintf("C_%s = A_%s\n", s, s), fmt.Sprintf("C_%s = %s\n", s, recName), "list used by a helper and by the target: the target's alias becomes the recursive function")
+			sens("", fmt.Sprintf("C_%s = A_%s\n", s, s), fmt.Sprintf("C_%s = [40040, 2]\n", s), "list used by a helper and by the target: the target's alias becomes a distinct equal list")
+		default:
+			u.defs = rec + fmt.Sprintf("A_%s = set([40040, 2])\nB_%s = A_%s\nD_%s = {\"a\": A_%s, \"b\": B_%s, \"c\": [A_%s]}\ndef k_%s():\n    return [%s(2), D_%s, B_%s]\n", s, s, s, s, s, s, s, s, recName, s, s)
+			sens("", fmt.Sprintf("B_%s = A_%s\n", s, s), fmt.Sprintf("B_%s = set([40040, 2])\n", s), "alias of a shared set becomes an equal but distinct set")
+		}
+		u.use = fmt.Sprintf("len(k_%s())", s)
+		sens("", "return 40030", "return 40031", "body of the recursive function in front of the shared value")
+	case "hashed":
+		// values whose element order could depend on a hash: sets and dicts of strings of 12..40 bytes (the Starlark fork
+		// hashes strings of 12 bytes and more with a hash that is seeded per process), bytes, mixed, nested in tuples; as a
+		// global, a default parameter value and a free variable
+		strs := func(k int, tag string) string {
+			var xs []string
+			for i := 0; i < k; i++ {
+				n := 12 + r.below(29)
+				xs = append(xs, "\""+tag+fmt.Sprintf("%02d_", i)+strings.Repeat(string(rune('a'+r.below(26))), n-len(tag)-3)+"\"")
+			}
+			return strings.Join(xs, ", ")
+		}
+		k := 3 + r.below(6)
+		var val string
+		switch r.below(6) {
+		case 0:
+			val = "set([" + strs(k, "s"+s) + "])"
+		case 1:
+			val = "dict([(x, len(x)) for x in [" + strs(k, "d"+s) + "]])"
+		case 2:
+			val = "set([b" + strings.ReplaceAll(strs(k, "b"+s), ", \"", ", b\"") + "])"
+		case 3:
+			val = "set([" + strs(k, "m"+s) + ", 1, 2, 40040, True, None, (\"" + strings.Repeat("t", 20) + "\", 3)])"
+		case 4:
+			val = "(set([" + strs(k, "t"+s) + "]), [set([" + strs(2+r.below(3), "u"+s) + "])], {\"k\": set([" + strs(k, "v"+s) + "])})"
+		default:
+			val = "set([(x, x + \"" + strings.Repeat("z", 15) + "\") for x in [" + strs(k, "p"+s) + "]])"
+		}
+		switch r.below(3) {
+		case 0:
+			u.defs = fmt.Sprintf("G_%s = %s\ndef k_%s():\n    return [G_%s, 40030]\n", s, val, s, s)
+		case 1:
+			u.defs = fmt.Sprintf("def k_%s(x=40030, y=%s):\n    return [x, y]\n", s, val)
+		default:
+			u.defs = fmt.Sprintf("def mk_%s():\n    c = %s\n    def inner():\n        return [c, 40030]\n    return inner\nk_%s = mk_%s()\n", s, val, s, s)
+		}
+		u.use = fmt.Sprintf("len(k_%s())", s)
+		sens("", "40030", "40031", "constant next to a set / dict of long strings")
 	case "sharedhelper":
 		// loaded by two packages; no nested load (a module in the middle of a nested load that is waited for by a
 		// second loader is defect D4 of the module loader, area Loader)
@@ -375,7 +449,8 @@ func (u *unit) rebase(k int) {
 
 var unitKinds = []string{"const", "const", "global", "container", "container", "container", "shared", "fact", "mutual", "closure",
 	"defaults", "nested", "cyclic", "cyclic", "deep", "deep", "predeclared", "environ", "flag", "targetref", "cache", "labels", "helper",
-	"fncontainer", "lambdacycle", "samename", "kwonly", "signature", "builtinalias", "values", "fnvalues", "codecycle"}
+	"fncontainer", "lambdacycle", "samename", "kwonly", "signature", "builtinalias", "values", "fnvalues", "codecycle",
+	"recshared", "recshared", "hashed", "hashed"}
 
 // Not generated: "freevarrec" (a nested function that calls itself through a free variable). Such a project
 // does not load: starlark.ExecFile freezes the module's globals and (*Function).Freeze / (*cell).Freeze of the
